@@ -12,6 +12,8 @@ def run(res):
     dc.check_and_replay(res, 'c03_h3', c, ov, depth_all=0, walks=2000)
     dc.trace_validate(res, 1000 if thorough else 100, 50)
     dc.repo_tests_validate(res)
+    if thorough:
+        dc.simulate_big(res)
     # class-hierarchy clause: event_handler composes inherited mappings without altering the bases
     from .eventdeco import run_deco
     run_deco(res)
